@@ -205,6 +205,38 @@ def container_value_rule(chk, facts, C, op, rule, lens=(0, 1, 2, 3)):
         chk.add(rule, key, v, d, where=where_of(b), sample=dict(obligation=key, verdict=v) if L == 2 else None)
 
 
+def container_many_rule(chk, facts, C, op, rule, lengths=(255, 256, 257, 1024)):
+    """value(m) with many terms that are all true on m (or all false): the reduction must neither panic (a counter
+    narrower than the number of terms overflows in builds with overflow checks) nor lose the parity / disjunction"""
+    short = C.adt.split("::")[-1]
+    b = C.method("value")
+    ms = facts.inherent_methods(C.elem)
+    for L in lengths:
+        for const in (1, 0):
+            key = "%s::value over %d terms that are all %d" % (short, L, const)
+            try:
+                it = Interp(facts, max_steps=50000000)
+                if "value" not in ms:
+                    raise Undecided("term type has no value()")
+                it.opaque_fns[ms["value"]["key"]] = lambda interp, fr, args, st, pc, t, c_=const: [Outcome("return", st, pc, wbool(c_))]
+                st = State()
+                v0 = C.mk(st, 4, ["c%d" % j for j in range(L)])
+                outs = it.call_body(b, [arg_for(b["sig"]["inputs"][0], v0, st), wconst(64, 0)], st, {})
+                o, v, d = single_return(outs)
+                if o is not None:
+                    want = (const and (L & 1 if op == "xor" else 1)) or 0
+                    r = o.value
+                    if isinstance(r, W) and r.val is not None:
+                        v, d = (PROVED, "") if r.val == want else (REFUTED, "returns %d, the %s of %d terms equal to %d is %d" % (r.val, op.upper(), L, const, want))
+                    else:
+                        v, d = UNDECIDED, "result %r" % (r,)
+                elif v == REFUTED:
+                    d = "with %d terms all true on the assignment: %s" % (L, d)
+            except Undecided as ex:
+                v, d = UNDECIDED, ex.cause
+            chk.add(rule, key, v, d, where=where_of(b))
+
+
 def reduction_rules(chk, facts, adt, op, rule, combine_trait, lens=(0, 1, 2, 3)):
     """shared by Soes (OR), Sop (OR) and Esop (XOR): value reduction, concatenating operator,
     tabulation into a Lut, is_zero/is_one soundness"""
@@ -215,6 +247,7 @@ def reduction_rules(chk, facts, adt, op, rule, combine_trait, lens=(0, 1, 2, 3))
     short = adt.split("::")[-1]
     chk.add(rule, "%s fields are private" % short, PROVED if C.private else REFUTED, "")
     container_value_rule(chk, facts, C, op, rule, lens)
+    container_many_rule(chk, facts, C, op, rule)
     # combining operator: concatenation (simplification handled by the caller for Sop)
     forms = [(bd, "<%s as %s>::%s" % (sty["s"], tr["s"], bd["name"])) for bd, sty, tr in facts.trait_impl_methods(combine_trait) if (sty["t"] if sty["k"] == "ref" else sty).get("path") == adt]
     chk.floor(rule + " operator forms", len(forms), 4)
